@@ -89,6 +89,36 @@ CLAIMED = {
          "with the model; builds are compared bitwise across thread counts, schedules, histories and (thorough) real pools with injected delays."),
    ref="5 C03",
    note="Pool.map ordering is a contract (hypothesis: schedule is a permutation of the tasks); real OS scheduling only exercised, not modelled; pool leak reported only."),
+ "C01": dict(
+   technique="Coq proofs of layout/additivity/scalings/mirroring/polarisation over a hand model using generated formula leaves + stage-wise vm_compute correspondence (binary32 stores, bit-exact OR) + spec falsifier",
+   text=("The assembly of the slope covariance matrix is modelled as written (positions, per-layer projection, blocks, float32 accumulation, OR "
+         "mirroring) with the block formulas regenerated from source; proved: the x-then-y per-sensor layout (unique decomposition of every "
+         "index), that only the lower block triangle is written (any carrier), additivity over layers, the r0^(-5/3) and wavelength-product "
+         "scalings for all configurations, soundness condition of the OR mirroring (with a counterexample without it), the polarisation identity "
+         "and that the xx/yy formulas instantiate it for equal diameters. Entry-wise equality with the slope covariance is FALSE for general "
+         "sensors (three known findings with witnesses); inside the guard of identical point-symmetric sensors it is checked numerically against "
+         "an independent specification. The model is run against the implementation on every configuration kind."),
+   ref="5 C01",
+   note="Entry-wise spec equality and PSD are not Coq theorems (guarded numerical check); kv/gamma oracles; Reals axioms; probability read through second-moment algebra."),
+ "C04": dict(
+   technique="Coq proof (matrix algebra over R, LAPACK contracts as hypotheses) over a hand model with generated phase_covariance + stage-wise vm_compute correspondence",
+   text=("Machine-checked proofs that A Cov_zz = Cov_xz (inverse contract), that A Cov_zz A^T + B B^T = Cov_xx (SVD contract, symmetry of the "
+         "joint covariance), that the covariance blocks are the entries of the separation-indexed covariance matrix and separations are Euclidean "
+         "distances, that row synthesis is linear in (stencil, innovation), that the Fried variant shifts by exactly the added constant (no "
+         "property of A, B needed), and that the Fried working size is the least 2^k+1 >= nx for every nx. Each stage of the construction "
+         "(stencils exact, separations, covariance with recorded kv, A from the recorded Cholesky inverse, B from the recorded SVD, rows with "
+         "injected innovations) is compared with the model; identities are re-checked numerically against an independent double-precision covariance."),
+   ref="5 C04",
+   note="LAPACK results and K_nu are oracles/contracts; positive-definiteness of the von Karman covariance (Bochner) assumed; binary32 cast bounded by tolerance."),
+ "C05": dict(
+   technique="Coq proof for every numeric carrier (list invariants by induction over histories) + vm_compute state-machine correspondence",
+   text=("Machine-checked proofs, valid for any carrier hence for the binary64 screen, that over any sequence of add-row steps the working array "
+         "keeps its stencil_length x nx shape and the exposed screen its requested N x N shape (also when the working size is larger), that one "
+         "step shifts the exposed screen down by exactly one row with the new row on top, the closed form after k steps, and that both variants' "
+         "steps preserve the invariant. Histories (incl. reads/repr and wrap-around lengths) are run on the implementation against the Coq state "
+         "machine; stationarity is checked numerically (fixed point of the covariance recursion, spectral radius < 1)."),
+   ref="5 C05",
+   note="Finiteness and convergence to the stationary covariance are observed/numerical, not proved; A, B taken from the object."),
 }
 NOT_YET = {}
 ALL = ["C%02d" % i for i in range(1, 21)]
